@@ -316,6 +316,16 @@ ArgKind(kw, parentKw) ==
 JudgedKinds == {"identifier","idref","date","boolean","integer","nonneg","maxel","status","orderedby","deviate",
                 "range","length","key","unique","absnode","descnode","fracdigits","pattern"}
 
+\* argument kinds whose ABNF rule is a closed list of keywords (boolean-arg, status-arg, ordered-by-arg, the deviate
+\* kinds): the argument is ONE of them, character for character - not a list, not a prefix, not another case
+EnumValues(kind) ==
+  CASE kind = "boolean" -> {"true", "false"}
+    [] kind = "status" -> {"current", "obsolete", "deprecated"}
+    [] kind = "orderedby" -> {"user", "system"}
+    [] kind = "deviate" -> DeviateKinds
+    [] OTHER -> {}
+EnumKinds == {"boolean", "status", "orderedby", "deviate"}
+
 ArgVerdict(kind, a) ==
   LET ts == Toks(a)
       B(x) == IF x THEN "valid" ELSE "invalid" IN
@@ -325,13 +335,13 @@ ArgVerdict(kind, a) ==
     [] kind = "idref" -> B(IsNodeId(ts))
     [] kind = "date" -> IF ~IsDateLex(ts) THEN "invalid"
                         ELSE IF DateMonth(ts) \in 1..12 /\ DateDay(ts) \in 1..28 THEN "valid" ELSE "unjudged"
-    [] kind = "boolean" -> B(a \in {"true", "false"})
+    [] kind = "boolean" -> B(a \in EnumValues(kind))
     [] kind = "integer" -> IF ~IsInt(ts) THEN "invalid" ELSE IF Len(ts) <= 9 THEN "valid" ELSE "unjudged"
     [] kind = "nonneg" -> IF ~IsNonNeg(ts) THEN "invalid" ELSE IF Len(ts) <= 9 THEN "valid" ELSE "unjudged"
     [] kind = "maxel" -> IF a = "unbounded" THEN "valid" ELSE IF ~IsPosInt(ts) THEN "invalid" ELSE IF Len(ts) <= 9 THEN "valid" ELSE "unjudged"
-    [] kind = "status" -> B(a \in {"current", "obsolete", "deprecated"})
-    [] kind = "orderedby" -> B(a \in {"user", "system"})
-    [] kind = "deviate" -> B(a \in DeviateKinds)
+    [] kind = "status" -> B(a \in EnumValues(kind))
+    [] kind = "orderedby" -> B(a \in EnumValues(kind))
+    [] kind = "deviate" -> B(a \in EnumValues(kind))
     [] kind = "range" -> RangeLike(ts, IsRangeBdry)
     [] kind = "length" -> RangeLike(ts, IsLengthBdry)
     [] kind = "key" -> ListLike(ts, IsNodeId)
